@@ -727,6 +727,11 @@ func splitAndSend(r *core.Run, ctx context.Context, m *lsMsg, air *[]airPart) bo
 			}
 			if pt[3] != m.ref || int(pt[4]) != len(parts) || int(pt[5]) != i+1 {
 				r.Fail("C07", "header", site, "counters", "part %d of %d carries ref=%d total=%d seq=%d (caller's ref %d)", i+1, len(parts), pt[3], pt[4], pt[5], m.ref)
+				if pt[3] == m.ref && int(pt[4]) == len(parts) && pt[5] >= 1 && int(pt[5]) <= len(parts) {
+					// well-formed counters in another order than the slice: "decoding the parts in order" (C06) reads the
+					// slice as returned, e.g. a sender that submits parts[0], parts[1], … over a link that keeps order
+					r.Fail("C06", "returned-order", site, "slice-order", "the returned slice is not in index order: position %d holds part %d of %d", i+1, pt[5], len(parts))
+				}
 				break
 			}
 			pl := len(pt) - 6
